@@ -86,6 +86,10 @@ func c12LeafYAML(l C12Leaf, indent string) string {
 			w("  ClearFrequency: 45s")
 			w("  UseTraceLength: true")
 		}
+		if l.N == 3 {
+			w("  MaxKeys: 1")
+			w("  ClearFrequency: 1500ms")
+		}
 	case "ed":
 		w("EMADynamicSampler:")
 		w("  GoalSampleRate: %d", l.G)
@@ -98,6 +102,13 @@ func c12LeafYAML(l C12Leaf, indent string) string {
 			w("  Weight: 0.4")
 			w("  BurstMultiple: 3")
 		}
+		if l.N == 3 {
+			w("  MaxKeys: 1")
+			w("  AdjustmentInterval: 1500ms")
+			w("  Weight: 0.99")
+			w("  AgeOutValue: 0.001")
+			w("  BurstDetectionDelay: 1")
+		}
 	case "tt":
 		w("TotalThroughputSampler:")
 		w("  GoalThroughputPerSec: %d", l.G)
@@ -109,6 +120,10 @@ func c12LeafYAML(l C12Leaf, indent string) string {
 		if l.N == 2 {
 			w("  ClearFrequency: 45s")
 			w("  UseTraceLength: true")
+		}
+		if l.N == 3 {
+			w("  MaxKeys: 1")
+			w("  ClearFrequency: 1500ms")
 		}
 	case "et":
 		w("EMAThroughputSampler:")
@@ -123,6 +138,13 @@ func c12LeafYAML(l C12Leaf, indent string) string {
 			w("  Weight: 0.4")
 			w("  InitialSampleRate: 7")
 		}
+		if l.N == 3 {
+			w("  MaxKeys: 1")
+			w("  AdjustmentInterval: 1500ms")
+			w("  Weight: 0.01")
+			w("  BurstMultiple: 1.5")
+			w("  BurstDetectionDelay: 1")
+		}
 	case "wt":
 		w("WindowedThroughputSampler:")
 		w("  GoalThroughputPerSec: %d", l.G)
@@ -134,6 +156,12 @@ func c12LeafYAML(l C12Leaf, indent string) string {
 		if l.N == 2 {
 			w("  UpdateFrequency: 2s")
 			w("  LookbackFrequency: 40s")
+		}
+		if l.N == 3 {
+			// a lookback that is neither a multiple of the update period nor of a second
+			w("  MaxKeys: 1")
+			w("  UpdateFrequency: 2s")
+			w("  LookbackFrequency: 5500ms")
 		}
 	}
 	return b.String()
@@ -237,6 +265,8 @@ func c12LeafSlot(s Sampler) C12Slot {
 		l := C12Leaf{T: "dy", G: int(x.Config.SampleRate), F: c12FieldsID(x.Config.FieldList)}
 		if x.Config.MaxKeys == 77 {
 			l.N = 1
+		} else if x.Config.MaxKeys == 1 {
+			l.N = 3
 		} else if x.Config.UseTraceLength {
 			l.N = 2
 		}
@@ -245,6 +275,8 @@ func c12LeafSlot(s Sampler) C12Slot {
 		l := C12Leaf{T: "ed", G: x.Config.GoalSampleRate, F: c12FieldsID(x.Config.FieldList)}
 		if x.Config.MaxKeys == 77 {
 			l.N = 1
+		} else if x.Config.MaxKeys == 1 {
+			l.N = 3
 		} else if x.Config.Weight == 0.4 {
 			l.N = 2
 		}
@@ -253,6 +285,8 @@ func c12LeafSlot(s Sampler) C12Slot {
 		l := C12Leaf{T: "tt", G: x.Config.GoalThroughputPerSec, U: x.Config.UseClusterSize, F: c12FieldsID(x.Config.FieldList)}
 		if x.Config.MaxKeys == 77 {
 			l.N = 1
+		} else if x.Config.MaxKeys == 1 {
+			l.N = 3
 		} else if x.Config.UseTraceLength {
 			l.N = 2
 		}
@@ -261,6 +295,8 @@ func c12LeafSlot(s Sampler) C12Slot {
 		l := C12Leaf{T: "et", G: x.Config.GoalThroughputPerSec, U: x.Config.UseClusterSize, F: c12FieldsID(x.Config.FieldList)}
 		if x.Config.MaxKeys == 77 {
 			l.N = 1
+		} else if x.Config.MaxKeys == 1 {
+			l.N = 3
 		} else if x.Config.Weight == 0.4 {
 			l.N = 2
 		}
@@ -269,6 +305,8 @@ func c12LeafSlot(s Sampler) C12Slot {
 		l := C12Leaf{T: "wt", G: x.Config.GoalThroughputPerSec, U: x.Config.UseClusterSize, F: c12FieldsID(x.Config.FieldList)}
 		if x.Config.MaxKeys == 77 {
 			l.N = 1
+		} else if x.Config.MaxKeys == 1 {
+			l.N = 3
 		} else if time.Duration(x.Config.UpdateFrequency) == 2*time.Second {
 			l.N = 2
 		}
